@@ -4,6 +4,7 @@ import (
 	"context"
 	"fmt"
 	"net"
+	"syscall"
 	"time"
 
 	"github.com/codelaboratoryltd/bng/pkg/dhcp"
@@ -26,10 +27,17 @@ import (
 
 type fakeConn struct {
 	onWrite func(b []byte, to net.Addr)
+	// fail, when set, is asked before a datagram is sent: an error makes the send fail (nothing leaves)
+	fail func(b []byte) error
 }
 
 func (f *fakeConn) ReadFrom(p []byte) (int, net.Addr, error) { select {} }
 func (f *fakeConn) WriteTo(p []byte, addr net.Addr) (int, error) {
+	if f.fail != nil {
+		if err := f.fail(p); err != nil {
+			return 0, &net.OpError{Op: "write", Net: "udp", Addr: addr, Err: err}
+		}
+	}
 	f.onWrite(append([]byte(nil), p...), addr)
 	return len(p), nil
 }
@@ -218,10 +226,28 @@ func c02Gen(r *sim.Rand, tier string) *sim.Case {
 		}
 		cs.Ops = append(cs.Ops, sim.Op{K: "burst", A: []int64{2}}, sim.Op{K: "decline", A: []int64{int64(r.N(u))}}, sim.Op{K: "discover", A: []int64{int64(u)}})
 	}
+	if r.P(10) && nc >= 2 {
+		// motif: a client renews just before the minute of the lease cleanup, its REQUEST is
+		// retransmitted a few seconds later (both are answered), nothing more comes from it; one
+		// lease time on, right after the cleanup tick that follows, the other clients ask
+		req := func(c int) sim.Op { return sim.Op{K: "request", A: []int64{int64(c), 0, 0, 0, 0}} }
+		cs.Ops = append(cs.Ops, sim.Op{K: "discover", A: []int64{0}}, req(0), sim.Op{K: "sleep", A: []int64{7}}, sim.Op{K: "sleep", A: []int64{2}}, req(0))
+		for k := r.Range(1, 2); k > 0; k-- {
+			cs.Ops = append(cs.Ops, sim.Op{K: "sleep", A: []int64{int64(sim.Pick(r, 0, 6))}})
+		}
+		cs.Ops = append(cs.Ops, req(0), sim.Op{K: "sleep", A: []int64{2}})
+		for c := 1; c < nc; c++ {
+			cs.Ops = append(cs.Ops, sim.Op{K: "discover", A: []int64{int64(c)}}, req(c))
+		}
+		n = r.Range(0, 5)
+	}
 	for i := 0; i < n; i++ {
 		c := int64(r.N(nc))
 		if cs.Knobs["radius"] == 1 && r.P(8) {
 			cs.Ops = append(cs.Ops, sim.Op{K: "radout", A: []int64{int64(r.Range(1, 2))}})
+		}
+		if r.P(6) {
+			cs.Ops = append(cs.Ops, sim.Op{K: "senderr", A: []int64{1}})
 		}
 		switch r.Weighted(10, 14, 4, 3, 1, 8, 3) {
 		case 0:
@@ -330,7 +356,21 @@ func c02Run(c *sim.Ctx) {
 		}
 		c.S.Radius = rn.Exchange
 	}
-	w.conn = &fakeConn{onWrite: w.onReply}
+	sendErr := 0
+	w.conn = &fakeConn{onWrite: w.onReply, fail: func(b []byte) error {
+		if sendErr > 0 {
+			// the reply cannot be sent (no route to the relay, no buffer space): the client learns nothing
+			sendErr--
+			c.S.Fault("net.send-error")
+			if m, err := dhcpv4.FromBytes(b); err == nil && m.MessageType() == dhcpv4.MessageTypeOffer && m.YourIPAddr != nil {
+				// the server holds the address as on offer all the same (for the availability clause
+				// only: an offer never taken up need not come back)
+				w.lastEv[m.YourIPAddr.To4().String()] = "offered"
+			}
+			return syscall.ENETUNREACH
+		}
+		return nil
+	}}
 	for i := 0; i < nc; i++ {
 		cl := &v4client{idx: i, mac: net.HardwareAddr{0x02, 0xaa, 0, 0, 0, byte(i + 1)}}
 		if cs.Knob("relaymask", 0)&(1<<uint(i)) != 0 {
@@ -544,6 +584,8 @@ func c02Run(c *sim.Ctx) {
 		c.OpIdx = i
 		op := ops[i]
 		switch op.K {
+		case "senderr":
+			sendErr += int(op.Arg(0))
 		case "radout":
 			// RADIUS outage: the next authentication exchange (all its retransmissions) goes unanswered
 			if withRadius {
@@ -595,7 +637,8 @@ func c02Run(c *sim.Ctx) {
 	if c.Failed() {
 		return
 	}
-	radOut = 0 // faults stop: the RADIUS server answers again
+	radOut = 0  // faults stop: the RADIUS server answers again
+	sendErr = 0 // ... and replies can be sent
 	// ---- availability after release/expiry (bounded liveness) -------------------
 	c.OpIdx = len(ops)
 	c.S.Sleep(lease + 125*time.Second) // every binding expired, two cleanup ticks
@@ -654,7 +697,7 @@ func init() {
 			"dhcp.Pool / dhcp.PoolManager", "ebpf.Loader without maps (as without XDP)", "insomniacslk/dhcp encode/decode",
 			"dhcpv6.Server.handleMessage with its address and prefix pools"},
 		Stub:         []string{"UDP sockets / server4 receive loop (messages are handed to the packet handler directly, one handler task per message)", "clients"},
-		Rule:         "cases: 4-30 client messages (DISCOVER, REQUEST in 9 flavours incl. foreign/gateway/network/broadcast/out-of-pool addresses, RELEASE, DECLINE, INFORM; v6: SOLICIT/REQUEST/RENEW/REBIND/CONFIRM/RELEASE/DECLINE) from 2-5 clients, bursts delivered concurrently, sleeps across T1/expiry/cleanup, RELEASE/renew of relayed clients with or without the relay's giaddr+option 82, in half of the v4 runs a drain tail (every client DISCOVER+REQUEST, cleanup tick, again), v6 over legacy pools or integrated PoolAllocator pools; non-trivial = >=3 replies and (a fault fired or >2 context switches); distinct = distinct (case hash, schedule fingerprint)",
+		Rule:         "cases: 4-30 client messages (DISCOVER, REQUEST in 9 flavours incl. foreign/gateway/network/broadcast/out-of-pool addresses, RELEASE, DECLINE, INFORM; v6: SOLICIT/REQUEST/RENEW/REBIND/CONFIRM/RELEASE/DECLINE) from 2-5 clients, bursts delivered concurrently, sleeps across T1/expiry/cleanup, RELEASE/renew of relayed clients with or without the relay's giaddr+option 82, in half of the v4 runs a drain tail (every client DISCOVER+REQUEST, cleanup tick, again), replies that cannot be sent (WriteTo fails: op senderr), a motif (renewal just before the cleanup minute, retransmitted a few seconds later, the other clients ask one lease time on), v6 over legacy pools or integrated PoolAllocator pools; non-trivial = >=3 replies and (a fault fired or >2 context switches); distinct = distinct (case hash, schedule fingerprint)",
 		QuickRuns:    30000,
 		ThoroughRuns: 1500000,
 		Assumptions: []string{"a client is a MAC (direct) or a MAC with its own circuit-id (relayed); circuit-ids are not shared between MACs", "an OFFER/ADVERTISE counts as 'offered to a different client' until the same client is answered again or one minute has passed (never longer than the lease): the property does not define how long an offer stands, this is the weakest reading that still covers concurrent and back-to-back exchanges",
